@@ -45,7 +45,7 @@ RAISED = -2      # function left by an exception
 class CFG(object):
     """control-flow graph of one function"""
 
-    def __init__(self, func):
+    def __init__(self, func, label_offset=0):
         src = textwrap.dedent(inspect.getsource(func))
         self.func = func
         self.name = func.__qualname__
@@ -55,7 +55,7 @@ class CFG(object):
         ast.increment_lineno(tree, self.first_line - 1)
         self.fdef = fdef
         self.nodes = {}
-        self._n = 0
+        self._n = label_offset
         self.sha = hashlib.sha256(src.encode()).hexdigest()[:16]
         self.last_line = self.first_line + src.count("\n") - 1
         conts = dict(next=EXIT, brk=None, cont=None, ret=EXIT, exc=RAISED)
@@ -104,6 +104,12 @@ class CFG(object):
             return n.label
         if t is ast.While:
             head = self.new("branch", s.test, s.lineno)
+            after = self.block(s.orelse, conts) if s.orelse else conts["next"]
+            body = self.block(s.body, dict(conts, next=head.label, cont=head.label, brk=conts["next"]))
+            head.succ = dict(true=body, false=after, exc=conts["exc"])
+            return head.label
+        if t is ast.For:
+            head = self.new("for", s, s.lineno)
             after = self.block(s.orelse, conts) if s.orelse else conts["next"]
             body = self.block(s.body, dict(conts, next=head.label, cont=head.label, brk=conts["next"]))
             head.succ = dict(true=body, false=after, exc=conts["exc"])
@@ -283,7 +289,7 @@ class BMC(object):
         import multiprocessing as mp
         import os
         import pickle
-        combos = list(itertools.product(range(self.nthreads), repeat=min(cubes, self.steps)))
+        combos = list(itertools.product(range(getattr(self, "nthreads_for_cubes", self.nthreads)), repeat=min(cubes, self.steps)))
         ctxm = mp.get_context("fork")
         results = []
         pending = list(combos)
